@@ -112,6 +112,11 @@ def run(prog, res):
         extra |= nonesafe.maybe_none_args(prog, g, f)
     nonesafe.check_function(prog, res, f, extra_maybe=extra)
   res.floor('N1', 12)
+  # lattice only: the linear validator rejects (d, d) through verify_acyclic
+  for q in ('lattice_lib.verify_hyperparameters',
+            'lattice_lib._verify_dominances_hyperparameters'):
+    validate.check_distinct_pairs(prog, res, prog.function(q))
+  res.floor('V9', 2)
   res.floor('N0', 250)
   res.floor('V1', 60)
   res.floor('V1s', 3)
